@@ -172,14 +172,25 @@ TRead == /\ IsEv("rd")
 THold == /\ IsEv("hold")
          /\ BundleMatches(cfg, ts, Ev.b)
          /\ held' = [k \in DOMAIN held \cup {Ev.k} |-> IF k = Ev.k THEN ts ELSE held[k]]
-         /\ UNCHANGED <<nodes, now, seqOn, ghost, cap, cfg, ts, uq>>
+         /\ UNCHANGED <<nodes, now, seqOn, ghost, cap, cfg, ts, uq, bootout, bootms, bootinfo>>
 THeld == /\ IsEv("held")
          /\ Ev.k \in DOMAIN held
          /\ BundleMatches(cfg, held[Ev.k], Ev.b)
          /\ UNCHANGED <<nodes, now, seqOn, ghost, cap, cfg, ts, uq, held, bootout, bootms, bootinfo>>
-(* bidib_stop: the shutdown traffic is C16's subject; kept results stay comparable *)
+(* bidib_stop (C16): the shutdown commands go through the same admission as any command; what is admitted is on the
+   wire when stop returns, group after group *)
 TStop == /\ IsEv("stop")
-         /\ UNCHANGED <<nodes, now, seqOn, ghost, cap, cfg, ts, uq, held, bootout, bootms, bootinfo>>
+         /\ LET out == StopCmds(cfg, ts)
+                sa == SendAllG(nodes, ghost, out)
+                d == Decode(Ev.w)
+            IN /\ CanConsume(sa.ns, d)
+               /\ AllOut(Consumed(sa.ns, d))
+               /\ LET new == SelectSeq([i \in DOMAIN d.ms |-> [m |-> d.ms[i], k |-> Cardinality({j \in 1..(i - 1) : d.ms[j].addr = d.ms[i].addr})]],
+                                        LAMBDA x : x.k >= Len(Node(nodes, x.m.addr).pend))      \* not what was still waiting for a flush before the stop
+                  IN StopPhasesOrdered([i \in DOMAIN new |-> new[i].m])
+               /\ nodes' = Consumed(sa.ns, d)
+               /\ ghost' = sa.g
+         /\ UNCHANGED <<now, seqOn, cap, cfg, ts, uq, held, bootout, bootms, bootinfo>>
 
 TNext == TBootWire \/ TBootInfo \/ TBoot \/ THold \/ THeld \/ TStop \/ TStart \/ TUp \/ THl \/ TTick \/ TFlush \/ TObs \/ TDrain \/ TRead
 TSpec == TInit /\ [][TNext]_ttvars
